@@ -1157,6 +1157,9 @@ LB_changed(LB* self, PyObject* ignored)
             cache = c
         return cache
 */
+/* Returns a new reference.  Hashing or comparing ``key`` can run arbitrary
+   Python code (which may call ``changed()``), so the caller must own a
+   reference to ``cache``. */
 static PyObject*
 _subcache(PyObject* cache, PyObject* key)
 {
@@ -1170,9 +1173,12 @@ _subcache(PyObject* cache, PyObject* key)
         if (subcache == NULL)
             return NULL;
         status = PyDict_SetItem(cache, key, subcache);
-        Py_DECREF(subcache);
-        if (status < 0)
+        if (status < 0) {
+            Py_DECREF(subcache);
             return NULL;
+        }
+    } else {
+        Py_INCREF(subcache);
     }
 
     return subcache;
@@ -1181,16 +1187,24 @@ _subcache(PyObject* cache, PyObject* key)
 static PyObject*
 _getcache(LB* self, PyObject* provided, PyObject* name)
 {
-    PyObject* cache;
+    PyObject *cache, *top;
 
     ASSURE_DICT(self->_cache);
 
-    cache = _subcache(self->_cache, provided);
+    top = self->_cache;
+    Py_INCREF(top);
+    cache = _subcache(top, provided);
+    Py_DECREF(top);
     if (cache == NULL)
         return NULL;
 
-    if (name != NULL && PyObject_IsTrue(name))
-        cache = _subcache(cache, name);
+    if (name != NULL && PyObject_IsTrue(name)) {
+        PyObject* named;
+
+        named = _subcache(cache, name);
+        Py_DECREF(cache);
+        cache = named;
+    }
 
     return cache;
 }
@@ -1242,11 +1256,10 @@ _lookup(LB* self,
         Py_DECREF(required);
         return NULL;
     }
-    /* The uncached lookup below runs arbitrary Python code that may call
-       ``changed()``, dropping the last other reference to this dictionary;
-       like the local variable of the Python version, keep it alive until
-       the result has been stored. */
-    Py_INCREF(cache);
+    /* ``cache`` is a new reference: the uncached lookup below runs arbitrary
+       Python code that may call ``changed()``, dropping the last other
+       reference to this dictionary; like the local variable of the Python
+       version, it is kept alive until the result has been stored. */
 
     if (PyTuple_GET_SIZE(required) == 1)
         key = PyTuple_GET_ITEM(required, 0);
@@ -1336,6 +1349,13 @@ _lookup1(LB* self,
         return NULL;
 
     result = PyDict_GetItem(cache, required);
+    if (result != NULL) {
+        if (result == Py_None && default_ != NULL) {
+            result = default_;
+        }
+        Py_INCREF(result);
+    }
+    Py_DECREF(cache);
     if (result == NULL) {
         PyObject* tup;
 
@@ -1346,11 +1366,6 @@ _lookup1(LB* self,
         PyTuple_SET_ITEM(tup, 0, required);
         result = _lookup(self, tup, provided, name, default_);
         Py_DECREF(tup);
-    } else {
-        if (result == Py_None && default_ != NULL) {
-            result = default_;
-        }
-        Py_INCREF(result);
     }
 
     return result;
@@ -1402,6 +1417,7 @@ _adapter_hook(LB* self,
     PyObject *factory;
     PyObject *result;
     PyObject *module;
+    PyObject *owned_self = NULL;
 
     module = _get_module(Py_TYPE(self));
 
@@ -1421,16 +1437,16 @@ _adapter_hook(LB* self,
 
     if (factory != Py_None) {
         if (PyObject_TypeCheck(object, &PySuper_Type)) {
-            PyObject* self = PyObject_GetAttr(object, str__self__);
-            if (self == NULL) {
+            owned_self = PyObject_GetAttr(object, str__self__);
+            if (owned_self == NULL) {
                 Py_DECREF(factory);
                 return NULL;
             }
-            // Borrow the reference to self
-            Py_DECREF(self);
-            object = self;
+            /* keep the reference: ``__self__`` may be computed */
+            object = owned_self;
         }
         result = PyObject_CallFunctionObjArgs(factory, object, NULL);
+        Py_XDECREF(owned_self);
         Py_DECREF(factory);
         if (result == NULL || result != Py_None)
             return result;
@@ -1502,22 +1518,30 @@ LB_queryAdapter(LB* self, PyObject* args, PyObject* kwds)
 static PyObject*
 _lookupAll(LB* self, PyObject* required, PyObject* provided)
 {
-    PyObject *cache, *result;
+    PyObject *cache, *result, *top;
 
     /* resolve before getting cache. See note in _lookup. */
     required = PySequence_Tuple(required);
     if (required == NULL)
         return NULL;
 
-    ASSURE_DICT(self->_mcache);
+    if (self->_mcache == NULL) {
+        self->_mcache = PyDict_New();
+        if (self->_mcache == NULL) {
+            Py_DECREF(required);
+            return NULL;
+        }
+    }
 
-    cache = _subcache(self->_mcache, provided);
+    /* ``cache`` is a new reference, kept across the callback; see _lookup. */
+    top = self->_mcache;
+    Py_INCREF(top);
+    cache = _subcache(top, provided);
+    Py_DECREF(top);
     if (cache == NULL) {
         Py_DECREF(required);
         return NULL;
     }
-    /* Keep the dictionary alive across the callback; see _lookup. */
-    Py_INCREF(cache);
 
     result = PyDict_GetItem(cache, required);
     if (result == NULL) {
@@ -1577,22 +1601,30 @@ LB_lookupAll(LB* self, PyObject* args, PyObject* kwds)
 static PyObject*
 _subscriptions(LB* self, PyObject* required, PyObject* provided)
 {
-    PyObject *cache, *result;
+    PyObject *cache, *result, *top;
 
     /* resolve before getting cache. See note in _lookup. */
     required = PySequence_Tuple(required);
     if (required == NULL)
         return NULL;
 
-    ASSURE_DICT(self->_scache);
+    if (self->_scache == NULL) {
+        self->_scache = PyDict_New();
+        if (self->_scache == NULL) {
+            Py_DECREF(required);
+            return NULL;
+        }
+    }
 
-    cache = _subcache(self->_scache, provided);
+    /* ``cache`` is a new reference, kept across the callback; see _lookup. */
+    top = self->_scache;
+    Py_INCREF(top);
+    cache = _subcache(top, provided);
+    Py_DECREF(top);
     if (cache == NULL) {
         Py_DECREF(required);
         return NULL;
     }
-    /* Keep the dictionary alive across the callback; see _lookup. */
-    Py_INCREF(cache);
 
     result = PyDict_GetItem(cache, required);
     if (result == NULL) {
@@ -1770,7 +1802,7 @@ _generations_tuple(PyObject* ro)
 static PyObject*
 verify_changed(VB* self, PyObject* ignored)
 {
-    PyObject *t, *ro;
+    PyObject *t, *ro, *generations;
 
     VB_clear(self);
 
@@ -1793,13 +1825,16 @@ verify_changed(VB* self, PyObject* ignored)
     if (ro == NULL)
         return NULL;
 
-    self->_verify_generations = _generations_tuple(ro);
-    if (self->_verify_generations == NULL) {
+    /* Reading a ``_generation`` can run arbitrary Python code, which may
+       re-enter ``changed()`` and fill both slots: release what is there. */
+    generations = _generations_tuple(ro);
+    if (generations == NULL) {
         Py_DECREF(ro);
         return NULL;
     }
 
-    self->_verify_ro = ro;
+    Py_XSETREF(self->_verify_generations, generations);
+    Py_XSETREF(self->_verify_ro, ro);
 
     Py_INCREF(Py_None);
     return Py_None;
